@@ -123,7 +123,14 @@ fn main() {
     if std::env::var("VH_PANIC").is_err() {
         // silent, but remember where the last panic happened (used in known-finding signatures)
         std::panic::set_hook(Box::new(|info| {
-            let loc = info.location().map(|l| format!("{}:{}", l.file().rsplit('/').take(4).collect::<Vec<_>>().into_iter().rev().collect::<Vec<_>>().join("/"), l.line())).unwrap_or_default();
+            // path from the crate directory (`name-x.y.z/...`) when there is one — the registry directory above it is machine specific —
+            // else the last four components
+            let loc = info.location().map(|l| {
+                let comps: Vec<&str> = l.file().split('/').collect();
+                let is_crate_dir = |c: &str| c.rsplit_once('-').map(|(_, v)| v.split('.').count() == 3 && v.split('.').all(|x| !x.is_empty() && x.chars().all(|d| d.is_ascii_digit()))).unwrap_or(false);
+                let from = comps.iter().rposition(|c| is_crate_dir(c)).unwrap_or(comps.len().saturating_sub(4));
+                format!("{}:{}", comps[from..].join("/"), l.line())
+            }).unwrap_or_default();
             *LAST_PANIC.lock().unwrap() = loc;
         }));
     }
